@@ -49,9 +49,13 @@ def gen(rng, tier):
             # an option string that is refused: the object is left to the caller, who frees it
             out.append(Scenario(pre + ["opts 0", "dump 0"], tags=(inj,)))
             continue
+        if rng.random() < 0.2: extra = extra + ["perms"]          # econf_requirePermissions with masks every file of the tree satisfies
         cmds = tree + extra + pre + [st["read"], "dump 0"]
         if st["hist"]: cmds.append(st["hist"])
         if files: cmds.append("readfile 3 %s x3d x23" % enc(rng.choice(files)))
+        if rng.random() < 0.3:
+            # a file named without any directory part (relative to the working directory)
+            cmds += [trees.fsfile(b"/plain.conf", b"k=1\n[s]\nj=2\n"), "readfile 4 %s x3d x23" % enc(b"plain.conf"), "dump 4"]
         obs = [False] * (len(tree) + len(extra) + len(pre)) + [True] * (len(cmds) - len(tree) - len(extra) - len(pre))
         out.append(Scenario(cmds, obs, tags=(inj,)))
     return out
